@@ -207,6 +207,7 @@ func runC01(p *an.Prog, r *an.Run, tier string) {
 	// ---- drivers
 	drivers := p.Implementations(p.Iface("pool/store", "Store"))
 	r.Floor("drivers", len(drivers), 2)
+	checkLedgerWriterMethods(p, r)
 	for _, d := range drivers {
 		checkDriverLedger(p, r, d)
 	}
@@ -920,4 +921,54 @@ func isPlainParam(p *an.Prog, v ssa.Value, prm *ssa.Parameter) bool {
 		}
 	}
 	return true
+}
+
+// checkLedgerWriterMethods: the balance and trial spaces of a driver are written by the three contract methods only
+// (AddNodeBalance, AddAccountBalance, AddAccountNode). The zero-sum and billing rules are stated over those; a further
+// writer (a batch credit reached through an ad-hoc interface, a reset, a clean-up) moves credit behind them.
+func checkLedgerWriterMethods(p *an.Prog, r *an.Run) {
+	allowed := map[string]bool{"AddNodeBalance": true, "AddAccountBalance": true, "AddAccountNode": true}
+	for _, d := range p.Implementations(p.Iface("pool/store", "Store")) {
+		kind := driverKind(d)
+		if kind == "" {
+			continue
+		}
+		var bad []string
+		nm := 0
+		ms := types.NewMethodSet(types.NewPointer(d))
+		for i := 0; i < ms.Len(); i++ {
+			m := p.MethodOf(d, ms.At(i).Obj().Name())
+			if m == nil {
+				continue
+			}
+			nm++
+			if allowed[m.Name()] {
+				continue
+			}
+			for _, o := range driverOps(p, d, m) {
+				if (o.Kind == opWrite || o.Kind == opDelete) && (o.inSpace("balance") || o.inSpace("trial")) {
+					bad = append(bad, an.FuncName(m)+" writes a balance record at "+p.Pos(o.In.Pos())+" although it is not one of the store contract's ledger methods")
+				}
+			}
+		}
+		r.Floor("ledger-writers-"+kind+"-methods", nm, 10)
+		r.Check(len(bad) == 0, "ledger-writers", kind, token.NoPos, "balances are written by AddNodeBalance/AddAccountBalance/AddAccountNode only", "%s", strings.Join(dedup(bad), "; "))
+	}
+	// and the balance manager reaches the store through store.BalanceStore only
+	var bad []string
+	for _, fn := range p.Repo {
+		if fn.Pkg == nil || !strings.HasSuffix(fn.Pkg.Pkg.Path(), "/pool/balance") || p.IsTestFunc(fn) {
+			continue
+		}
+		an.AllInstrs(fn, func(in ssa.Instruction) {
+			ta, ok := in.(*ssa.TypeAssert)
+			if !ok {
+				return
+			}
+			if fv := an.FieldOf(stripLoad(ta.X)); fv != nil && fv.Name() == "Store" {
+				bad = append(bad, an.FuncName(fn)+" type-asserts its store to "+ta.AssertedType.String()+" at "+p.Pos(ta.Pos())+": ledger writes made through another interface escape the pairing and error rules")
+			}
+		})
+	}
+	r.Check(len(bad) == 0, "ledger-writers", "balance-manager", token.NoPos, "the balance manager writes the ledger through store.BalanceStore only", "%s", strings.Join(dedup(bad), "; "))
 }
